@@ -73,7 +73,9 @@ class TaskCtx:
         try:
             paths = interp.explore(thunk, on_path=on_path)
         except (Unsupported, PathLimit) as e:
-            self.add_result("engine", "unsupported", detail="%s: %s" % (type(e).__name__, e))
+            r = self.add_result("engine", "unsupported", detail="%s: %s" % (type(e).__name__, e))
+            r.clause = "engine"
+            r.replay = getattr(self, "native", None)
             return []
         if not paths:
             self.add_result("vacuity", "unsupported", detail="no feasible path: contradictory precondition")
@@ -528,6 +530,20 @@ def run_check(prop, module, tier, seed):
             else:
                 unconfirmed.append(o[1])
 
+    # obligations the verifier could not decide because the code left the supported subset: the property's
+    # native oracle is searched for a failing input (a confirmed input is a violation; none found stays undecided)
+    still = []
+    for r in undecided:
+        rp = r.get("replay")
+        if r["status"] == "unsupported" and rp:
+            found, out2 = native_search(prop, rp[0], rp[1], seed)
+            if found is not None:
+                path = write_replay(prop, r["name"], rp[0], found, "verifier undecided (%s); failing input found by the guided native "
+                                    "search of the property's oracle" % (r.get("detail") or "")[:200])
+                violations.append((r, path, ""))
+                continue
+        still.append(r)
+    undecided = still
     for (k, ck) in known_hits:
         print("KNOWN-FINDING: property=%s %s [%s]" % (prop, k.get("what", ""), ck))
     for (r, path, suffix) in violations:
